@@ -26,6 +26,9 @@ pub fn check(tier: Tier) -> Check {
     parts.push(Part::new("C09/qos2", json!({"depth": tier.pick(6, 7), "r": 1, "m": 40}), 0, tier.pick(40, 300)));
     parts.push(Part::new("C09/qos2", json!({"depth": tier.pick(5, 6), "r": 2, "ids": [1, 2, 3], "own": true}), 0, tier.pick(40, 300)));
     parts.push(Part::new("C09/wide", json!({"n": 300, "r": 7}), 0, 300));
+    // two subscriptions: one message for both streams, one of them dropped, re-deliveries naming
+    // the same / fewer / other subscription identifiers, messages no stream takes
+    parts.push(Part::new("C09/qos2", json!({"depth": tier.pick(4, 5), "two": true}), 0, tier.pick(40, 300)));
     // the bookkeeping across a reconnect: kept while the session lives, forgotten when it expired
     parts.push(Part::new("C09/reset", json!({}), 0, 60));
     parts.push(Part::new("C09/wide", json!({"n": tier.pick(4096, 65535)}), 0, 300));
@@ -33,7 +36,7 @@ pub fn check(tier: Tier) -> Check {
         also_rel: false,
         property: "C09",
         level: "model_checking",
-        rule: "all sequences over {PUBLISH(QoS 2, id in {1,2} / {1,257} / {255,65535}, DUP 0/1), PUBREL(id in {1,2}), an unrelated QoS 1 PUBLISH} against one subscribed stream, also interleaved with two QoS 2 publishes of the client's own that carry the same identifier values and their PUBREC / PUBCOMP; the model keeps the set of identifiers awaiting PUBREL; the same under a CONNACK with Receive Maximum 1 / 2 / 7 and a Maximum Packet Size (limits on what the client sends, not on inbound exchanges); plus the bookkeeping across a reconnect (an unreleased identifier is still a re-delivery after a resume of the live session, and a new message after an expired one); plus deterministic runs over every identifier 1..=n at once (deliver all, re-deliver all, release all, twice, three orders); non-trivial = a re-delivery had to be suppressed".into(),
+        rule: "all sequences over {PUBLISH(QoS 2, id in {1,2} / {1,257} / {255,65535}, DUP 0/1), PUBREL(id in {1,2}), an unrelated QoS 1 PUBLISH} against one subscribed stream, also interleaved with two QoS 2 publishes of the client's own that carry the same identifier values and their PUBREC / PUBCOMP; the model keeps the set of identifiers awaiting PUBREL; the same under a CONNACK with Receive Maximum 1 / 2 / 7 and a Maximum Packet Size (limits on what the client sends, not on inbound exchanges); plus two subscribed streams (a message for both, either stream dropped, re-deliveries naming both / one / an unknown / no subscription identifier); plus the bookkeeping across a reconnect (an unreleased identifier is still a re-delivery after a resume of the live session, and a new message after an expired one); plus deterministic runs over every identifier 1..=n at once (deliver all, re-deliver all, release all, twice, three orders); non-trivial = a re-delivery had to be suppressed".into(),
         assumptions: vec![],
         parts,
     }
@@ -205,14 +208,41 @@ pub fn scenario(name: &str, params: &Value) -> Scenario {
             return sys.report(ex, &[]);
         }
         let sid = sys.m.subs[0].sub_id.unwrap();
+        let two = params["two"].as_bool().unwrap_or(false);
+        let mut lists: Vec<Vec<u32>> = vec![vec![sid]];
+        if two {
+            sys.apply(Ev::Start(OpSpec::Subscribe(SubscribeSpec::simple("s/b"))));
+            if sys.dead {
+                return sys.report(ex, &[]);
+            }
+            let ack = sys.ack_for(1, 0, "").unwrap();
+            sys.apply(Ev::Deliver(ack));
+            sys.apply(Ev::TakeStream(1));
+            if sys.dead {
+                return sys.report(ex, &[]);
+            }
+            let sid2 = sys.m.subs[1].sub_id.unwrap();
+            lists = vec![vec![sid, sid2], vec![sid2, sid], vec![sid], vec![999], vec![]];
+        }
+        // a conformant broker repeats a message unchanged: each packet identifier keeps the
+        // subscription-identifier list chosen for it here throughout the execution
+        let list_of: Vec<usize> = ids.iter().map(|_| if two { chz.choose(lists.len()) } else { 0 }).collect();
         let evs = |s: &Sys| {
             let mut e = vec![];
             let n = s.transitions;
-            for pid in ids.iter().copied() {
+            for (k, pid) in ids.iter().copied().enumerate() {
+                let l = &lists[list_of[k]];
                 for dup in [false, true] {
-                    e.push(Ev::Deliver(inbound(2, dup, pid, &[sid], &format!("m{}", n))));
+                    e.push(Ev::Deliver(inbound(2, dup, pid, l, &format!("m{}", n))));
                 }
                 e.push(Ev::Deliver(pubrel_in(pid)));
+            }
+            if two {
+                for i in 0..s.m.streams.len() {
+                    if s.m.streams[i].alive {
+                        e.push(Ev::DropStream(i));
+                    }
+                }
             }
             e.push(Ev::Deliver(inbound(1, false, ids[0], &[sid], &format!("u{}", n))));
             if own {
